@@ -130,6 +130,41 @@ func Gen(w *bufio.Writer, seed uint64, tier string) {
 		fmt.Fprintf(w, "C09 fixpe %d %d %d\n", c[0], c[1], r.Intn(1<<30))
 	}
 
+	// FixPEChecksum on generated PE-like files shipped in full: the stored value is compared with the
+	// declarative checksum computed by the Lean driver.  e_lfanew+88 on / next to the 32 KiB and 64 KiB
+	// io.Copy boundaries, odd and zero e_lfanew, fields at or beyond EOF, odd lengths, rejects.
+	emitFix := func(lfanew, total int, magic bool) {
+		if total < 0 {
+			total = 0
+		}
+		d := r.Bytes(total)
+		if total >= 2 && magic {
+			d[0], d[1] = 'M', 'Z'
+		}
+		if total >= 64 {
+			d[0x3c], d[0x3d], d[0x3e], d[0x3f] = byte(lfanew), byte(lfanew>>8), byte(lfanew>>16), 0
+		}
+		fmt.Fprintf(w, "C09 fixpehex %s\n", hx.Hex(d))
+	}
+	for _, c := range [][2]int{{0, 64}, {0, 300}, {4, 64}, {4, 92}, {4, 94}, {4, 95}, {4, 96}, {4, 97}, {64, 400}, {128, 1001}, {129, 1000}, {200, 150},
+		{32676, 33000}, {32678, 33001}, {32680, 33000}, {32680, 32772}, {32680, 32770}, {32680, 32768}, {32679, 33000}, {32684, 40001},
+		{65448, 65600}, {65446, 65601}, {65452, 66000}, {32680, 70000}} {
+		emitFix(c[0], c[1], true)
+	}
+	emitFix(128, 500, false)
+	emitFix(0, 63, true)
+	emitFix(0, 0, true)
+	for i := 0; i < pick(12, 120); i++ {
+		lf := 4 * r.Intn(300)
+		if r.Intn(3) == 0 {
+			lf = r.Pick(32768, 65536) - 88 + r.Pick(-4, -2, 0, 2, 4)
+		}
+		if r.Intn(12) == 0 {
+			lf++
+		}
+		emitFix(lf, lf+88+r.Pick(-3, 0, 2, 4, 5, 100, 1001, 3000), true)
+	}
+
 	// ---- (3) encoding choice and the fail-over loop --------------------------------------------
 	accepts := []string{"", "gzip", "x-snappy-framed", "x-snappy-framed, gzip", "gzip, x-snappy-framed", "gzip;q=0",
 		" gzip ", "GZIP", "identity", "br, deflate", "gzip,x-snappy-framed;q=0.1", "x-snappy-framed ;q=1", "\tgzip", ",,",
